@@ -381,12 +381,15 @@ class IntegrityChecker(object):
                             level="violation",
                             category="feature size"))
             else:
-                lenfeat = len(self.ds[feat])
                 if feat == "contour" and self.ds.format == "hdf5":
                     # The length of the contour feature is taken from the
                     # metadata for performance reasons. Here, we have to
-                    # look at the actual number of contours stored.
+                    # look at the actual number of contours stored (and
+                    # we must not rely on any particular contour, e.g.
+                    # the first one, being there).
                     lenfeat = len(self.ds.h5file["events"]["contour"])
+                else:
+                    lenfeat = len(self.ds[feat])
                 if lenfeat != lends:
                     cues.append(ICue(
                         msg=f"Features: wrong event count: '{feat}' "
